@@ -187,7 +187,7 @@ impl Prop for C07 {
         fn me(n: usize) -> usize {
             n * 2
         }
-        let normal = (graph_strategy(&ALL_KINDS, 21, 60, me, &[0, 3, 4, 4, 5, 7], 4), any::<u64>()).prop_map(|(g, sel)| ParCase { g, sel, big_n: None });
+        let normal = (graph_strategy(&ALL_KINDS, 21, 60, me, &[0, 3, 4, 4, 5, 7], 4), any::<u64>()).prop_map(|(g, sel)| ParCase { g: tame_path_counts(g, 33), sel, big_n: None });
         // log-uniform sizes 61..=1200
         let big = (0u16..1000, any::<u64>(), 0u8..4).prop_map(|(r, sel, k)| {
             let n = (61.0 * (3000.0f64 / 61.0).powf(r as f64 / 999.0)).round() as u16;
